@@ -155,12 +155,14 @@ func MkdirUsable(afs fs.FS, path fs.RelPath, preferredProps fs.Metadata) error {
 	of the dir will be forced back to its previous value, seemingly unchanged.
 */
 func RepairMtime(afs fs.FS, path fs.RelPath) func() {
-	fmeta, err := afs.LStat(path)
+	// A path that names the dir through a symlink means the dir: that is where the kernel
+	//  puts whatever gets created below the path, so that is the mtime which gets disrupted.
+	fmeta, err := afs.Stat(path)
 	if err != nil {
 		return func() {}
 	}
 	return func() {
-		afs.SetTimesLNano(path, fmeta.Mtime, fs.DefaultTime)
+		afs.SetTimesNano(path, fmeta.Mtime, fs.DefaultTime)
 	}
 }
 
